@@ -383,12 +383,19 @@ def _num_binop(op, rop=False):
         except TypeError:
             return NotImplemented
         a = self.e
+        if _TYPED_SCALAR_HOOK is not None and type(self) is SInt and (self.w is not None or getattr(o, "w", None) is not None):
+            r = op(b, a) if rop else op(a, b)
+            if not r.is_real():
+                return _TYPED_SCALAR_HOOK(self, o, SInt(z3.simplify(r)))
         if _lit(a) is not None and _lit(b) is not None:
             return _mk(z3.simplify(op(b, a) if rop else op(a, b)))
         r = op(b, a) if rop else op(a, b)
         return SReal(r) if r.is_real() else SInt(r)
 
     return f
+
+
+_TYPED_SCALAR_HOOK = None  # installed by symx.snp: result dtype and wrap-around of arithmetic between numpy-typed scalars
 
 
 def _num_cmp(op):
@@ -415,10 +422,13 @@ def _pymod(a, b):
 
 
 class SInt:
-    __slots__ = ("e",)
+    # w: (bits, signed) when the value is a numpy scalar of a fixed-width integer dtype (an element taken out of an int8 /
+    # int16 / ... array): arithmetic on it then wraps like numpy scalar arithmetic does.  None = a Python int.
+    __slots__ = ("e", "w")
 
-    def __init__(self, e):
+    def __init__(self, e, w=None):
         self.e = e
+        self.w = w
 
     @property
     def __class__(self):
@@ -470,6 +480,8 @@ class SInt:
         return o / SReal(z3.ToReal(self.e))
 
     def __neg__(self):
+        if self.w is not None and _TYPED_SCALAR_HOOK is not None and type(self) is SInt:
+            return _TYPED_SCALAR_HOOK(self, self, SInt(-self.e))
         return SInt(-self.e)
 
     def __pos__(self):
